@@ -5,6 +5,7 @@ from pyvc.values import (V, Int, Str, Bool, SeqV, SeqS, NONE, ABSENT, TRUE, FALS
                          mk_seq, keys_of, clsof, EMPTY_MAP, pystr)
 from pyvc.state import Unsupported, Static, ExcVal, SIter, SBound
 from pyvc.expr import ok, exc
+from pyvc.values import qforall
 
 
 def make_stubs(world):
@@ -472,6 +473,62 @@ def make_stubs(world):
         if b is not None:
             out.append((b, 'exc', _oserror(eng, b, mk_int(2))))
         return out
+
+    def _w_dir():
+        import os, tempfile
+        d = tempfile.mkdtemp()
+        try:
+            open(os.path.join(d, 'f'), 'w').close()
+            ok_ = os.path.isdir(d) and not os.path.isdir(os.path.join(d, 'f')) and os.listdir(d) == ['f']
+            ok_ = ok_ and os.path.exists(os.path.join(d, os.listdir(d)[0])) and isinstance(os.path.join(d, 'f'), str)
+            try:
+                os.listdir(os.path.join(d, 'nope'))
+                ok_ = False
+            except OSError:
+                pass
+            return ok_
+        finally:
+            os.remove(os.path.join(d, 'f'))
+            os.rmdir(d)
+
+    from specs.external import fs_isdir, fs_listdir, pjoin
+
+    @S.fn('os.path.isdir', doc='ghost file system: fs_isdir(path); a directory exists', witness=_w_dir)
+    def isdir(eng, st, pos, kw):
+        st.assume(V.is_str(pos[0]))
+        st.assume(z3.Implies(fs_isdir(V.s(pos[0])), fs_exists(V.s(pos[0]))))
+        return ok(st, mk_bool(fs_isdir(V.s(pos[0]))))
+
+    @S.fn('os.path.join', doc='pjoin(a, b): a string (two-argument form, string arguments)', witness=_w_dir)
+    def pjoin_(eng, st, pos, kw):
+        if len(pos) != 2 or kw:
+            raise Unsupported('os.path.join with %d arguments' % len(pos))
+        a, b = pos
+        return eng.guard(st, z3.And(V.is_str(a), V.is_str(b)), 'TypeError',
+                         lambda s: ok(s, V.str(pjoin(V.s(a), V.s(b)))))
+
+    @S.fn('os.listdir', doc='a fresh list of the entry names fs_listdir(path) of a directory, OSError otherwise; every '
+          'listed entry exists when joined to the directory (the ghost file system is constant during one call; a '
+          'dangling symbolic link, which is listed but does not "exist", is NOT modelled)', witness=_w_dir)
+    def listdir(eng, st, pos, kw):
+        p = pos[0]
+        st.assume(V.is_str(p))
+        a, b = eng.split(st, fs_isdir(V.s(p)))
+        out = []
+        if a is not None:
+            names = fs_listdir(V.s(p))
+            R = eng.fresh('listdir', SeqV)
+            j = z3.Int('ld!j')
+            a.assume(z3.Length(R) == z3.Length(names))
+            a.assume(qforall([j], z3.Implies(z3.And(j >= 0, j < z3.Length(R)), z3.And(
+                R[j] == V.str(names[j]), fs_exists(pjoin(V.s(p), names[j])))), patterns=[R[j]]))
+            out.append((a, 'ok', eng.new_list(a, R)))
+        if b is not None:
+            out.append((b, 'exc', _oserror(eng, b, mk_int(20))))
+        return out
+
+    # keys usable in max(seq, key=...): pure functions of one string with their domain
+    S.pure_keys = {'os.path.getmtime': (lambda s_: fs_mtime(s_), lambda s_: fs_exists(s_))}
 
     @S.fn('open', doc='open(path) for reading: a file object, or OSError (errno EACCES when fs_eacces(path), some other '
           'errno only when the path does not exist; the ghost file system is constant during one call, so the race '
